@@ -3,9 +3,17 @@
    break_words on or off, every width, either line ending, every text.
    Optimal-fit (reference oracle): additionally no line of the first result wider than the
    width; proved for ESC-free text, cw SP = 1 and a positive per-line penalty.
-   The Unicode separator half of the property is checked on the implementation only: a
-   theorem would have to relate unicode-linebreak's answer on a line to its answer on the
-   paragraph containing it, which the abstract oracle does not provide. *)
+   The Unicode separator half: whether the second pass finds the same words in a line taken
+   on its own is a fact about unicode-linebreak (how its answer on a line relates to its
+   answer on the paragraph containing it) which an abstract oracle does not provide.  It is
+   isolated as ONE computable, per-text hypothesis [refind_b] (every first-pass line does not
+   end in a space and, taken alone, is found again as fragments that fit one line); the
+   theorem C14_any_separator derives idempotence from it for both separators, and the
+   extracted [refind_b] is evaluated on every generated case, so each case on which it
+   answers true is an instance of the theorem.  For the ASCII separator [refind_b] is true
+   for EVERY text (C14_check_always_true_for_ascii), so C14_first_fit is the special case;
+   the examples in Proofs/IdemUnicode.v show oracles for which it is false and filling is
+   not idempotent, i.e. the hypothesis is not removable. *)
 From TW Require Import Wrap.
 From TW Require Import Idempotent.
 
@@ -24,5 +32,28 @@ Theorem C14_optimal_fit : forall (cw : char -> N) alnum lbc custom_sp o pen,
     fill cw alnum lbc custom_sp ofit_dp o r = Some r.
 Proof. exact fill_idempotent_optimal. Qed.
 
+From TW Require Import Pipeline IdemUnicode.
+Theorem C14_any_separator : forall cw alnum lbc custom_sp ofit o,
+  o_alg o = FirstFit -> SplitterOK custom_sp -> EmptyIndents o -> o_spl o <> SplCustom ->
+  forall t r,
+    refind_b cw alnum lbc custom_sp o t = true ->
+    fill cw alnum lbc custom_sp ofit o t = Some r ->
+    fill cw alnum lbc custom_sp ofit o r = Some r.
+Proof. exact fill_idem_refind. Qed.
+
+(* what the boolean says, in both directions *)
+Theorem C14_check_meaning : forall cw alnum lbc custom_sp o t,
+  refind_b cw alnum lbc custom_sp o t = true <->
+  RefindParas cw alnum lbc custom_sp o true (split_le (o_le o) t).
+Proof. exact refind_b_spec. Qed.
+
+Theorem C14_check_always_true_for_ascii : forall cw alnum lbc custom_sp o,
+  SplitterOK custom_sp -> EmptyIndents o -> o_sep o = SepAscii -> o_spl o <> SplCustom ->
+  forall t, refind_b cw alnum lbc custom_sp o t = true.
+Proof. exact refind_b_ascii_builtin. Qed.
+
+Print Assumptions C14_any_separator.
+Print Assumptions C14_check_meaning.
+Print Assumptions C14_check_always_true_for_ascii.
 Print Assumptions C14_first_fit.
 Print Assumptions C14_optimal_fit.
